@@ -251,7 +251,7 @@ func (e *Exec) Close() error {
 	return nil
 }
 
-const opTimeout = 20 * time.Second
+const opTimeout = 60 * time.Second // (20 s was exceeded once at load average 35 on a tree where no put can block)
 
 var hung atomic.Bool
 
